@@ -201,7 +201,7 @@ theorem step_stores_sync {R} (hR : StoreRelS R) (s : Sys) (op : Op) (h : op.noRe
   obtain ⟨n, q, cap, started, nodes, owners⟩ := s
   have same : ∀ st, StoresRel R ⟨n, q, cap, started, nodes, owners⟩ ⟨n, q, cap, st, nodes, owners⟩ := fun _ v => hR.refl _
   cases op with
-  | cfg n q cap => simp [Op.noReplace] at h
+  | cfg n q cap fr => simp [Op.noReplace] at h
   | install i a ps acks => simp [Op.noReplace] at h
   | crash i =>
     simp only [step]
